@@ -140,9 +140,9 @@ func fsvSpec() *edt.Spec {
 			if msg != "" {
 				return msg
 			}
-			pass, roles, ty, P, swap := 1, r0, "int512", "havoc@L0(local)", swap0
+			pass, roles, ty, P, swap := 1, r0, "int512", "havoc@L0(A<lattice.int512>#1)", swap0
 			if class == "step2" || class == "return2" {
-				pass, roles, ty, P, swap = 2, r1, "int384", "havoc@L1(local)", e.V("swap2") == edt.T
+				pass, roles, ty, P, swap = 2, r1, "int384", "havoc@L1(A<lattice.int384>#2)", e.V("swap2") == edt.T
 				if roles == nil {
 					return "pass 2 reached without its loop state"
 				}
@@ -156,7 +156,7 @@ func fsvSpec() *edt.Spec {
 				}
 				found := false
 				for _, ev := range p.Events {
-					if ev == "int384.FromInt512(havoc@L0(local))" {
+					if ev == "int384.FromInt512(havoc@L0(A<lattice.int512>#1))" {
 						found = true
 					}
 				}
